@@ -49,6 +49,7 @@ class Model:
 		self.probes: dict[str, int] = {}
 		self.depth = 0
 		self.max_depth = 0
+		self.now = -1
 
 	def probe(self, k: str, n: int = 1) -> None:
 		self.probes[k] = self.probes.get(k, 0) + n
@@ -117,7 +118,8 @@ class Model:
 				return r
 		if self.flaky.get(fid, 0) > 0:
 			self.flaky[fid] -= 1
-			return 'RuntimeError'
+			self.probe(f"armed factory raised {self.u.FLAKY_ERR.get(fid, 'RuntimeError')}")
+			return self.u.FLAKY_ERR.get(fid, 'RuntimeError')
 		return None
 
 	def lead_count(self, uid: int, fid: str) -> int:
@@ -136,6 +138,11 @@ class Model:
 		if bd is None:
 			self.diffs.append(f'{ctx}: a value for {s} although the model has no binding')
 			return
+		if bd.inst is None:
+			# the dependant was made during an earlier, failed call and its dependency's symbol has been re-bound since: the object it holds
+			# belongs to a binding generation the model no longer tracks
+			self.probe('dependency object predates the current binding of its symbol (not attributed)')
+			return
 		kind, val = bd.inst
 		if kind == 'di':
 			if not isinstance(obs, dict) or obs.get('di') != val:
@@ -153,7 +160,12 @@ class Model:
 			self.diffs.append(f"{ctx}: {s} must be a fresh instance made by {bd.fid} during op {val} (no instance existed for this binding generation); got serial {obs['serial']} made by {obs['by']} during op {obs['op']}")
 			return
 		bd.inst = ('obj', obs['serial'])
-		self.explain_made(uid, bd.fid, obs, ctx)
+		if val == self.now:
+			self.explain_made(uid, bd.fid, obs, ctx)
+		else:
+			# made during an earlier call that failed after creating it (e.g. an argument mismatch behind resolved leading parameters): its own
+			# dependencies belong to the bindings of that moment, which may have been replaced since
+			self.probe('first sight of an instance made during an earlier failed call (its dependencies are not attributed)')
 
 	def explain_made(self, uid: int, fid: str, obs: Any, ctx: str, n_lead: int | None = None) -> None:
 		"""The leading parameters of the factory were filled with the container's own resolve results."""
@@ -300,13 +312,20 @@ class DISim:
 		out = []
 		for a in op.get('args', []):
 			if isinstance(a, str) and a.startswith('@'):
-				out.append(self.u.SYMBOLS[a[1:]]())  # a symbol-typed argument passed explicitly
+				cls = self.u.SYMBOLS[a[1:]]
+				try:
+					out.append(cls())  # a symbol-typed argument passed explicitly
+				except TypeError:
+					o = cls.__new__(cls)  # (a symbol whose constructor wants its own dependencies: a bare caller-made object)
+					self.u.Obj.__init__(o)
+					out.append(o)
 			else:
 				out.append(a)
 		return out
 
 	def step(self, k: int, op: dict[str, Any]) -> None:
 		u, m = self.u, self.model
+		m.now = k
 		kind = op['op']
 		self.bump('ops', kind)
 		if kind == 'flaky':
@@ -525,6 +544,10 @@ class C19(Engine):
 			# parameters with default values are parameters like any other: filled when bound, otherwise they must be passed, never defaulted silently
 			c([I('f_s3_opt'), {'op': 'unbind', 'h': 0, 's': 'S1'}, I('f_s3_opt'), I('f_s3_opt', '@S1'), I('f_s4_opt', 1, 'a'), I('f_s4_opt', 1), {'op': 'rebind', 'h': 0, 's': 'S3', 'f': 'f_s3_opt'}, R(0, 'S3'),
 				{'op': 'bind', 'h': 0, 's': 'S1', 'f': 'f_s1'}, {'op': 'rebind', 'h': 0, 's': 'S3', 'f': 'f_s3_opt'}, R(0, 'S3')])
+			# a REGISTERED leading parameter whose resolution fails (its factory raises ValueError / its own dependency is missing) is never
+			# treated as unbound: the failure escapes, the caller's object is not passed through in its place
+			c([{'op': 'flaky', 'f': 'f_flaky_v', 'n': 2}, {'op': 'rebind', 'h': 0, 's': 'S1', 'f': 'f_flaky_v'}, I('f_s3', '@S1'), I('f_s3'), I('f_s3'), R(0, 'S1')])
+			c([{'op': 'unbind', 'h': 0, 's': 'S0'}, {'op': 'bind', 'h': 0, 's': 'S2', 'f': 'f_s2'}, I('f_on_s2', '@S2'), I('f_on_s2'), R(0, 'S2'), {'op': 'bind', 'h': 0, 's': 'S0', 'f': 'S0'}, I('f_on_s2'), R(0, 'S2')])
 			for broken in BROKEN:
 				# materialisation of a by-name definition fails: the definition stays, the error repeats, clone / combine carry it, rebind repairs it
 				c([R(0, 'S1'), R(0, 'S1'), {'op': 'can', 'h': 0, 's': 'S1'}, I('f_s3'), {'op': 'clone', 'h': 0, 'into': 1}, R(1, 'S1'), {'op': 'new', 'into': 2, 'defs': {'S0': {'f': 'f_s0'}}},
@@ -597,7 +620,7 @@ class C19(Engine):
 				n_handles = max(n_handles, into + 1)
 				ops.append({'op': 'new', 'into': into, 'defs': defs()})
 			else:
-				ops.append({'op': 'flaky', 'f': rng.choice(['f_flaky', 'f_flaky2']), 'n': rng.randint(1, 2)})
+				ops.append({'op': 'flaky', 'f': rng.choice(['f_flaky', 'f_flaky2', 'f_flaky_v']), 'n': rng.randint(1, 2)})
 		return {'cls': cls, 'ops': ops, 'init': defs() or {'S0': {'f': 'S0'}}}
 
 	def execute(self, case: dict[str, Any]) -> dict[str, Any]:
